@@ -1057,7 +1057,7 @@ fn main() {
             (7, "new;new;new;new;new;new; checked_append 0 1; checked_append 1 2; checked_append 1 3; checked_append 1 4; remove 1; new; append_value 6"),
             (7, "new;new;new;new;new;new; checked_append 0 1; checked_append 0 2; checked_append 0 3; checked_append 2 4; remove_subtree 2; new; append_value 6"),
         ];
-        let shaped_budget = budget / 4;
+        let shaped_budget = budget / 3;
         let t1 = Instant::now();
         'shaped: loop {
             for (n0, shape) in &shapes {
